@@ -23,7 +23,8 @@ pub const F_IDENT: u32 = 1024;
 pub const F_FS: u32 = 2048;
 pub const F_DISK: u32 = 4096;
 pub const F_SPANS: u32 = 8192;
-pub const ALL_FAULTS: [(u32, &str); 14] = [(F_SPANS, "token_built_inputs"), (F_DISK, "warm_disk"), (F_IDENT, "identity"), (F_FS, "filesystem"), (F_ENTROPY, "entropy"), (F_THREAD, "thread"), (F_HISTORY, "history"), (F_ENV, "env"), (F_CLOCK, "clock"), (F_HEAP, "heap"), (F_PID, "pid"), (F_ORDER, "order_policy"), (F_CWD, "cwd"), (F_ARGV, "argv")];
+pub const F_CONCURRENT: u32 = 16384;
+pub const ALL_FAULTS: [(u32, &str); 15] = [(F_CONCURRENT, "concurrent_pairs"), (F_SPANS, "token_built_inputs"), (F_DISK, "warm_disk"), (F_IDENT, "identity"), (F_FS, "filesystem"), (F_ENTROPY, "entropy"), (F_THREAD, "thread"), (F_HISTORY, "history"), (F_ENV, "env"), (F_CLOCK, "clock"), (F_HEAP, "heap"), (F_PID, "pid"), (F_ORDER, "order_policy"), (F_CWD, "cwd"), (F_ARGV, "argv")];
 
 pub fn fault_names(mask: u32) -> Vec<&'static str> {
     ALL_FAULTS.iter().filter(|(b, _)| mask & b != 0).map(|(_, n)| *n).collect()
@@ -79,6 +80,9 @@ pub enum Event {
     Expand { tid: u32, input: u32 },
     /// like Expand, but the input is handed over as tokens without source locations
     ExpandTokens { tid: u32, input: u32 },
+    /// two expansions running concurrently on two worker threads under a seeded interleaving
+    /// (switch points: the seam's yield points, hooked build; none in the plain build)
+    ExpandPair { a_tid: u32, a_input: u32, b_tid: u32, b_input: u32, sched: u64 },
     Perturb { tid: u32, n: u32, seed: u64 },
     Order { tid: u32, policy: u8, seed: u64 },
     /// attribution only: order policy restricted to one iteration site "<file>:<line>"
@@ -156,6 +160,9 @@ thread_local! {
     pub static SLOT: std::cell::Cell<usize> = const { std::cell::Cell::new(999) };
 }
 
+/// the second observation of an ExpandPair event at position p is reported at p + PAIR_B_OFFSET
+pub const PAIR_B_OFFSET: usize = 500_000;
+
 pub struct Env {
     pub host_bins: Vec<((Backend, Build), PathBuf)>,
     pub shim: PathBuf,
@@ -202,6 +209,9 @@ pub struct HostLog {
     pub fs_calls: u64,
     pub fs_names: String,
     pub addrs: Vec<String>,
+    /// scheduler switches performed in concurrent pairs
+    pub switches: u64,
+    pub pairs: u64,
     pub raw: String,
 }
 
@@ -273,6 +283,12 @@ pub fn run_host(env: &Env, backend: Backend, build: Build, texts: &[(u32, String
     let mut plan = String::new();
     // only define the inputs this host uses, in id order
     let mut used: Vec<u32> = cfg.events.iter().filter_map(|e| if let Event::Expand { input, .. } | Event::ExpandTokens { input, .. } = e { Some(*input) } else { None }).collect();
+    for e in &cfg.events {
+        if let Event::ExpandPair { a_input, b_input, .. } = e {
+            used.push(*a_input);
+            used.push(*b_input);
+        }
+    }
     used.sort();
     used.dedup();
     for id in &used {
@@ -284,6 +300,7 @@ pub fn run_host(env: &Env, backend: Backend, build: Build, texts: &[(u32, String
             Event::Spawn { tid } => plan.push_str(&format!("T {}\n", tid)),
             Event::Expand { tid, input } => plan.push_str(&format!("E {} {} {}\n", pos, tid, input)),
             Event::ExpandTokens { tid, input } => plan.push_str(&format!("E {} {} {} t\n", pos, tid, input)),
+            Event::ExpandPair { a_tid, a_input, b_tid, b_input, sched } => plan.push_str(&format!("X {} {} {} {} {} {} {}\n", pos, a_tid, a_input, pos + PAIR_B_OFFSET, b_tid, b_input, sched)),
             Event::Perturb { tid, n, seed } => plan.push_str(&format!("P {} {} {}\n", tid, n, seed)),
             Event::Order { tid, policy, seed } => plan.push_str(&format!("O {} {} {}\n", tid, policy, seed)),
             Event::OrderAt { tid, policy, seed, site } => plan.push_str(&format!("O {} {} {} {}\n", tid, policy, seed, site)),
@@ -444,6 +461,10 @@ pub fn parse_log(out: &str) -> Result<HostLog, HarnessError> {
                 saw_s = true;
             },
             "A" => log.addrs.push(line.to_string()),
+            "K" if f.len() == 3 => {
+                log.pairs += 1;
+                log.switches += f[2].parse::<u64>().unwrap_or(0);
+            },
             "" => {},
             _ => return Err(HarnessError(format!("unparseable host log line: {:?}", &line[..line.len().min(120)]))),
         }
@@ -836,7 +857,7 @@ pub fn plan_world(ws: u64, corpus: &Corpus, o: &PlanOpts) -> World {
             }
             rng.shuffle(&mut order);
         }
-        let mut events = Vec::new();
+        let mut events: Vec<Event> = Vec::new();
         let mut spawned = vec![false; nthreads];
         spawned[0] = true;
         if f & F_ORDER != 0 {
@@ -885,6 +906,60 @@ pub fn plan_world(ws: u64, corpus: &Corpus, o: &PlanOpts) -> World {
                     events.push(Event::Expand { tid, input: *id });
                 }
             }
+        }
+        if f & F_CONCURRENT != 0 {
+            // pairs need two worker threads
+            let mut have: Vec<u32> = events.iter().filter_map(|e| if let Event::Spawn { tid } = e { Some(*tid) } else { None }).collect();
+            let mut prefix: Vec<Event> = Vec::new();
+            let mut next_tid = 1u32;
+            while have.len() < 2 {
+                while have.contains(&next_tid) {
+                    next_tid += 1;
+                }
+                prefix.push(Event::Spawn { tid: next_tid });
+                have.push(next_tid);
+            }
+            // order policy of the new threads follows thread 0's
+            if let Some(Event::Order { policy, seed, .. }) = events.iter().find(|e| matches!(e, Event::Order { tid: 0, .. })).cloned() {
+                for e in prefix.clone() {
+                    if let Event::Spawn { tid } = e {
+                        prefix.push(Event::Order { tid, policy, seed });
+                    }
+                }
+            }
+            let mut out: Vec<Event> = Vec::new();
+            let mut i = 0;
+            // all Spawn events first, so that a pair never names a thread that does not exist yet
+            let (spawns, rest): (Vec<Event>, Vec<Event>) = events.into_iter().partition(|e| matches!(e, Event::Spawn { .. }));
+            let mut order_events: Vec<Event> = Vec::new();
+            let mut body: Vec<Event> = Vec::new();
+            for e in rest {
+                if matches!(e, Event::Order { .. }) {
+                    order_events.push(e)
+                } else {
+                    body.push(e)
+                }
+            }
+            out.extend(spawns);
+            out.extend(prefix);
+            out.extend(order_events);
+            while i < body.len() {
+                if i + 1 < body.len() && rng.chance(1, 3) {
+                    if let (Event::Expand { input: a, .. }, Event::Expand { input: b, .. }) = (&body[i], &body[i + 1]) {
+                        let ta = have[rng.below(have.len() as u64) as usize];
+                        let mut tb = have[rng.below(have.len() as u64) as usize];
+                        if tb == ta {
+                            tb = *have.iter().find(|t| **t != ta).unwrap();
+                        }
+                        out.push(Event::ExpandPair { a_tid: ta, a_input: *a, b_tid: tb, b_input: *b, sched: rng.next_u64() >> 1 });
+                        i += 2;
+                        continue;
+                    }
+                }
+                out.push(body[i].clone());
+                i += 1;
+            }
+            events = out;
         }
         cfg.events = events;
         hosts.push(cfg);
